@@ -578,17 +578,44 @@ def _wiring(chk):
             dyn = Dyn()
             dom = _Obj(dynamics=dyn, initial_state="X0", period=None)
             result = _Obj(x_corrected=xarr(xs), half_period=X(th), iterations=2, residual_norm=X(sp.Integer(0)))
-            self = _Obj(domain_obj=dom, corrector=_Obj(correct=lambda d, options=None: result),
+            seen_opts = []
+            default_opts, call_opts = _Obj(to_dict=lambda: {"which": "default"}), _Obj(to_dict=lambda: {"which": "per call"})
+            self = _Obj(domain_obj=dom, corrector=_Obj(correct=lambda d, options=None: seen_opts.append(options) or result),
                         make_key=lambda *a: a, get_or_create=lambda k, f: f(),
-                        correction_options=_Obj(to_dict=lambda: {}))
+                        correction_options=default_opts)
             self.apply_correction = types.MethodType(S.apply_correction, self)
+            S.correct(self, options=call_opts)
             state, period, res = S.correct(self, options=None)
+            if seen_opts != [call_opts, default_opts]:
+                raise Refuted("correct(options=...) does not hand the caller's options to the corrector (per-call options, then "
+                              "the orbit's defaults when none are given)", str([o.to_dict() if o is not None else None for o in seen_opts]),
+                              inputs={"options": "per-call tol / max_attempts / max_delta"})
             require_identity(red, val(period), 2 * th, key_prefix="returned period != 2*half_period")
             require_identity(red, val(dyn.period), 2 * th, key_prefix="stored period != 2*half_period")
             for a, b in zip(vals(dyn._initial_state), xs):
                 require_identity(red, a, b, key_prefix="stored state")
             if log[0] != "reset":
                 raise Refuted("cache-not-reset-before-update", str(log))
+    def th_period_real():
+        # on a REAL dynamics service: whatever period the orbit carried before (none, far, or within 1e-7 relative of
+        # the new one - a coarse correction followed by a tight one, a continuation step), the stored period is EXACTLY
+        # 2 * half_period afterwards
+        from hiten.algorithms.types.services.base import _DynamicsServiceBase as sbase
+        for before in (None, 3.0, 2.5 * (1 + 1e-7), 2.5 * (1 - 3e-6)):
+            dyn = real_self(so._OrbitDynamicsService)
+            sbase.__init__(dyn, "ORBIT")
+            dyn._initial_state, dyn._period, dyn._trajectory, dyn._stability_info = _np.zeros(6), before, None, None
+            payload = _Obj(x_full=[1.0, 0, 0, 0, 2.0, 0], half_period=1.25)
+            so._OrbitCorrectionService.apply_correction(real_self(so._OrbitCorrectionService, _domain_obj=_Obj(dynamics=dyn)), payload)
+            if dyn.period != 2.5:
+                raise Refuted(f"after a correction with half_period = 1.25 the orbit's period is {dyn.period!r}, not 2.5 "
+                              f"(period before the correction: {before!r})", "the stored period does not close the stored state",
+                              inputs={"period before": before, "half_period": 1.25})
+    chk.obl("apply_correction on a real dynamics service: stored period == 2*half_period exactly, whatever the previous period "
+            "(none, far, within 1e-7 .. 3e-6 relative)", "K2 postconditions", [SO + ":_OrbitCorrectionService.apply_correction",
+                                                                              SO + ":_OrbitDynamicsService.period"],
+            "B4 exact evaluation", th_period_real)
+
     chk.obl("correct/apply_correction: period == 2*half_period, state replaced, cache reset first", "K2 wiring",
             [SO + ":_OrbitCorrectionService.correct", SO + ":_OrbitCorrectionService.apply_correction"],
             "B3 sympy normal form", th_period)
